@@ -39,7 +39,24 @@ CHECKS["C14"] = c14.check
 CHECKS["C01"] = nhfamily.check_c01
 CHECKS["C04"] = nhfamily.check_c04
 CHECKS["C11"] = nhfamily.check_c11
-CHECKS["C16"] = nhfamily.check_c16
+
+
+def _c16(prop, tier, replay_path):
+    """C16 = snapshot directories of real NodeHosts under power loss (nhsim snap) + received snapshots with
+    external files on the real chunk receiver (cksim)"""
+    import json
+    if replay_path:
+        with open(replay_path) as fh:
+            kind = json.load(fh).get("kind")
+        if kind == "TestVerifCksim":
+            return c15.check_c16_received(prop, tier, replay_path)
+        return nhfamily.check_c16(prop, tier, replay_path)
+    a = nhfamily.check_c16(prop, tier, None)
+    b = c15.check_c16_received(prop, tier, None)
+    return 1 if 1 in (a, b) else max(a, b)
+
+
+CHECKS["C16"] = _c16
 CHECKS["C20"] = nhfamily.check_c20
 CHECKS["C09"] = logstore.check_c09
 CHECKS["C10"] = logstore.check_c10
